@@ -2,6 +2,7 @@ package metrics
 
 import (
 	"net/http"
+	"strings"
 	"time"
 
 	"k8s.io/apiserver/pkg/authentication/user"
@@ -75,6 +76,13 @@ type unionObserver struct {
 }
 
 func (o *unionObserver) Observe(metric MetricInfo) {
+	// Resource, Path, Verb, ServerName and UserName are taken from the request (decoded path segments, Host, user)
+	// and become label values; client_golang panics on a label value that is not valid UTF-8.
+	metric.Resource = strings.ToValidUTF8(metric.Resource, "\uFFFD")
+	metric.Path = strings.ToValidUTF8(metric.Path, "\uFFFD")
+	metric.Verb = strings.ToValidUTF8(metric.Verb, "\uFFFD")
+	metric.ServerName = strings.ToValidUTF8(metric.ServerName, "\uFFFD")
+	metric.UserName = strings.ToValidUTF8(metric.UserName, "\uFFFD")
 	for _, ob := range o.observers {
 		ob.Observe(metric)
 	}
